@@ -35,7 +35,9 @@ func (*c18) Rule() string {
 		"and seeded pairs over the whole space; seeded random histories of length 3-8 focused on 1-3 names. Each call is executed on the " +
 		"real engine, its success / error Formal is compared with the set ISO 8.14.3.3 + Cor.2 allows, and after EVERY call the set " +
 		"enumerated by current_op/3 (plus 7 partially instantiated patterns and, at the end, ill-typed patterns) is compared with the " +
-		"model table; an erroring call must leave the table as it was. Reader/writer probes for up to 3 touched names on the final table. " +
+		"model table; an erroring call must leave the table as it was. Reader/writer probes for up to 3 touched names on the final table: reading " +
+		"a N b, N a, a N, a N b N c, a N b * c at priority 1200 and as an argument, a list element and the operand of prefix - (expected term or syntax error from the model table), " +
+		"notation chosen by writeq, and a write/read round trip through a file of 11 terms per name (N inside a list tail, {}, an argument, itself, under prefix -). " +
 		"Non-trivial: the model history contains an erroring call after >=1 successful call, or a call that redefines or removes an " +
 		"existing entry; distinct by history hash."
 }
@@ -457,6 +459,7 @@ type c18Meta struct {
 	Calls   []*term.Term   `json:"calls"`   // op(P,T,O)
 	Queries [][]*term.Term `json:"queries"` // queries[i] = current_op goals asked after call i-1 (0: initial); the first is all-unbound
 	Probes  []c18Probe     `json:"probes"`  // reader probes, one step each, in order
+	RT      []*term.Term   `json:"rt"`      // round-trip terms (one step, after the reader probes)
 	WNames  []string       `json:"wnames"`  // writer probes: for each name writeq(N(a,b)), writeq(N(a))
 }
 
@@ -475,6 +478,11 @@ vfa([], []).
 vfa([G|Gs], [L|Ls]) :- catch(findall(G, G, L), error(E, _), L = err(E)), vfa(Gs, Ls).
 vw([]).
 vw([T|Ts]) :- writeq(T), nl, vw(Ts).
+vrt([], []).
+vrt([T|Ts], [R|Rs]) :-
+	open('c18_rt.txt', write, S), writeq(S, T), write(S, ' .'), nl(S), close(S),
+	open('c18_rt.txt', read, I), catch(read(I, R), error(E, _), R = '$err'(E)), close(I),
+	vrt(Ts, Rs).
 `
 
 func c18Touched(calls []*term.Term) []string {
@@ -557,9 +565,32 @@ func (g *c18Gen) item(family string, calls []*term.Term) *Item {
 			c18Probe{n, "postfix", fmt.Sprintf("'='(X, (a %s)).", tk)},
 			c18Probe{n, "assoc", fmt.Sprintf("'='(X, (a %s b %s c)).", tk, tk)},
 			c18Probe{n, "prio", fmt.Sprintf("'='(X, (a %s b * c)).", tk)})
+		if n != "," && n != "|" && n != "[]" && n != "{}" {
+			// the same operator where the context admits less than 1200: an argument (999) and the operand of prefix - (200)
+			m.Probes = append(m.Probes,
+				c18Probe{n, "postfix_arg", fmt.Sprintf("'='(X, f(a %s)).", tk)},
+				c18Probe{n, "infix_arg", fmt.Sprintf("'='(X, f(a %s b)).", tk)},
+				c18Probe{n, "prefix_arg", fmt.Sprintf("'='(X, f(%s a)).", tk)},
+				c18Probe{n, "postfix_neg", fmt.Sprintf("'='(X, (- a %s)).", tk)},
+				c18Probe{n, "postfix_list", fmt.Sprintf("'='(X, [a %s]).", tk)})
+		}
 	}
 	for _, p := range m.Probes {
 		c.Steps = append(c.Steps, proto.Step{Query: p.Text, Max: c18Max})
+	}
+	// round trip under the final table: what writeq writes for terms built from the probed names is read back as the same term
+	{
+		a, b, cc, x := term.A("a"), term.A("b"), term.A("c"), term.A("x")
+		for _, n := range probed {
+			if n == "," || n == "|" || n == "[]" || n == "{}" {
+				continue
+			}
+			f := func(args ...*term.Term) *term.Term { return &term.Term{K: term.KCmp, S: n, Args: args} }
+			m.RT = append(m.RT, term.PL(f(a, b), x), term.PL(f(a), x), term.C("{}", f(a, b)), term.C("f", f(a, b), f(a)),
+				f(f(a, b), cc), f(a, f(b, cc)), term.C("-", f(a)), f(term.C("-", a)), term.L(f(a, b), f(a)), f(f(a)), term.C("-", term.I(1), f(a, b)))
+		}
+		k := addInput(term.L(m.RT...))
+		c.Steps = append(c.Steps, proto.Step{Query: fmt.Sprintf("verif_in(%d, Ts), vrt(Ts, Rs).", k), Max: c18Max})
 	}
 	m.WNames = probed
 	var ws []*term.Term
@@ -871,7 +902,7 @@ func (c *c18) Judge(cx *Ctx, it *Item, outs []*run.Outcome) Verdict {
 			return Verdict{Status: Inconclusive, Msg: "helper clauses did not load: " + e.Text}
 		}
 	}
-	want := 1 + 2*len(m.Calls) + len(m.Probes) + 1
+	want := 1 + 2*len(m.Calls) + len(m.Probes) + 2
 	if len(res.Steps) != want {
 		return Verdict{Status: Inconclusive, Msg: fmt.Sprintf("expected %d step results, got %d", want, len(res.Steps))}
 	}
@@ -994,6 +1025,33 @@ func (c *c18) Judge(cx *Ctx, it *Item, outs []*run.Outcome) Verdict {
 			if model.has(n, c18Postfix) {
 				wantT = f(a)
 			}
+		case "postfix_arg", "postfix_list":
+			if d, ok := model[c18Key{n, c18Postfix}]; ok && d.P <= 999 {
+				wantT = term.C("f", f(a))
+				if p.Kind == "postfix_list" {
+					wantT = term.L(f(a))
+				}
+			}
+		case "infix_arg":
+			if isInfix && inf.P <= 999 {
+				wantT = term.C("f", f(a, b))
+			}
+		case "prefix_arg":
+			if d, ok := model[c18Key{n, c18Prefix}]; ok && d.P <= 999 {
+				wantT = term.C("f", f(a))
+			}
+		case "postfix_neg":
+			if neg, ok := model[c18Key{"-", c18Prefix}]; !ok || neg != (c18Def{200, "fy"}) || n == "-" {
+				j.extra["probes_not_asserted"]++
+				continue
+			}
+			if d, ok := model[c18Key{n, c18Postfix}]; ok {
+				if d.P <= 200 {
+					wantT = term.C("-", f(a))
+				} else {
+					wantT = f(term.C("-", a))
+				}
+			}
 		case "assoc":
 			if !isInfix {
 				j.extra["probes_not_asserted"]++
@@ -1042,6 +1100,24 @@ func (c *c18) Judge(cx *Ctx, it *Item, outs []*run.Outcome) Verdict {
 				return v
 			}
 			j.deferClassed(v)
+		}
+	}
+
+	// round trip of terms built from the probed names
+	{
+		rst := &res.Steps[len(res.Steps)-2]
+		if rst.Err != nil || len(rst.Answers) < 1 {
+			return j.violated("", "writing the round-trip terms to a file and reading them back did not succeed: %s", c18StepText(rst))
+		}
+		rs, _ := term.ListElems(rst.Answers[0]["Rs"])
+		if len(rs) != len(m.RT) {
+			return Verdict{Status: Inconclusive, Msg: fmt.Sprintf("%d round-trip results for %d terms", len(rs), len(m.RT))}
+		}
+		for i, t := range m.RT {
+			j.extra["round_trip_probes"]++
+			if !term.Equal(t, rs[i]) {
+				return j.violated("", "under the final table, writeq of %s was read back as %s (the text written and the reader do not use the same table)", t.String(), rs[i].String())
+			}
 		}
 	}
 
